@@ -143,6 +143,20 @@ impl Parser for Variable {
     }
 }
 
+/// True if a binary operator of this expression has no right hand side.
+/// The error for that is not stored in the expression,
+/// but in the node that was parsed around it.
+fn misses_rhs(expr: &Expression) -> bool {
+    match expr {
+        Expression::Binary(binary) => {
+            matches!(binary.rhs.as_ref(), Expression::Error(_))
+                || misses_rhs(&binary.lhs)
+                || misses_rhs(&binary.rhs)
+        }
+        _ => false,
+    }
+}
+
 impl Parser for Expression {
     fn parse<'a>(this: Option<&Self>, input: TokenStream<'a>) -> IResult<'a, Self> {
         fn parse_bracketed(input: TokenStream) -> IResult<Expression> {
@@ -285,6 +299,9 @@ impl Parser for Expression {
             Ok((input, exp))
         }
 
+        // An expression whose error lives in the surrounding node cannot be reused:
+        // when the surrounding node is parsed again, nobody would report the error anymore.
+        let this = this.filter(|expr| !misses_rhs(expr));
         // Expr := Comp
         affected(this, parse_comparison)(input)
     }
@@ -619,7 +636,8 @@ impl Parser for Argument {
         }
 
         let (input, expr) = match this {
-            Some(Self::Valid(expr)) => affected(
+            // see `Expression::parse`
+            Some(Self::Valid(expr)) if !misses_rhs(expr) => affected(
                 Some(expr),
                 alt((|input| parse_valid(Some(expr), input), parse_error)),
             )(input)?,
